@@ -930,6 +930,8 @@ declcommon(struct scope *s, enum declkind kind, char *name, char *asmname, struc
 			error(&tok.loc, "%s '%s' redeclared with different linkage", kindstr, name);
 		if (!typecompatible(t, prior->type) || tq != prior->qual)
 			error(&tok.loc, "%s '%s' redeclared with incompatible type", kindstr, name);
+		if (kind == DECLOBJECT && (prior->u.obj.storage == SDTHREAD) != !!(sc & SCTHREADLOCAL))
+			error(&tok.loc, "object '%s' redeclared with different thread storage duration", name);
 		if (asmname && (!prior->asmname || strcmp(prior->asmname, asmname) != 0))
 			error(&tok.loc, "%s '%s' redeclared with different assembler name", kindstr, name);
 		prior->type = typecomposite(t, prior->type);
@@ -949,6 +951,8 @@ declcommon(struct scope *s, enum declkind kind, char *name, char *asmname, struc
 				error(&tok.loc, "%s '%s' redeclared with different linkage", kindstr, name);
 			if (!typecompatible(t, prior->type) || tq != prior->qual)
 				error(&tok.loc, "%s '%s' redeclared with incompatible type", kindstr, name);
+			if (kind == DECLOBJECT && (prior->u.obj.storage == SDTHREAD) != !!(sc & SCTHREADLOCAL))
+				error(&tok.loc, "object '%s' redeclared with different thread storage duration", name);
 			if (!asmname)
 				asmname = prior->asmname;
 			else if (!prior->asmname || strcmp(prior->asmname, asmname) != 0)
